@@ -49,11 +49,27 @@ func RunRetryCase(cs map[string]any, id int, seed int64) Result {
 	fails := int(cs["fails"].(float64))
 	hdr := map[string][]string{"Tcb-Info-Issuer-Chain": {fmt.Sprintf("chain-%d", rng.Int63())}, "Content-Type": {"application/json"}}
 	body := RandBytes(rng, 100+rng.Intn(1000))
-	hdrCopy := map[string][]string{}
+	switch cs["resp"] { // a success is a success whatever it carries: empty or absent body, absent headers
+	case "emptyBody":
+		body = []byte{}
+	case "nilBody":
+		body = nil
+	case "nilHeaders":
+		hdr = nil
+	case "allEmpty":
+		body, hdr = []byte{}, map[string][]string{}
+	}
+	var hdrCopy map[string][]string
+	if hdr != nil {
+		hdrCopy = map[string][]string{}
+	}
 	for k, v := range hdr {
 		hdrCopy[k] = append([]string{}, v...)
 	}
-	bodyCopy := append([]byte{}, body...)
+	var bodyCopy []byte
+	if body != nil {
+		bodyCopy = append([]byte{}, body...)
+	}
 	g := &retryGetter{fails: fails, hdr: hdr, body: body, url: fmt.Sprintf("https://pcs.example/%d", rng.Int63()), urlOk: true}
 	if max == 0 {
 		g.perCall = time.Millisecond // bounds the number of attempts of the "retry at once" schedule
